@@ -83,6 +83,26 @@ def run(tier, seed):
                 plans.append({"id": "len%d" % len(plans), "steps": activation.happy_prefix() + cur}); cur = []
         if cur:
             plans.append({"id": "len%d" % len(plans), "steps": activation.happy_prefix() + cur})
+        # "many": more rectangles in one update, and more updates in one PDU, than any fixed small table holds (the largest
+        # counts an unfragmented PDU can carry with 18-byte rectangles / 3-byte updates are about 1 800 / 10 000)
+        plans.append({"id": "many-rects", "steps": activation.happy_prefix() + [
+            {"srv": {"kind": "FastPath", "shape": [{"t": "Bitmap", "n": n, "dlen": 0, "flags": 0}], "long": True}} for n in (255, 256, 257, 1023, 1024, 1025, 1500)]})
+        plans.append({"id": "many-updates", "steps": activation.happy_prefix() + [
+            {"srv": {"kind": "FastPath", "shape": [{"t": "Other", "code": 3}] * n + [{"t": "Bitmap", "n": 2, "dlen": 3, "flags": 0}], "long": True}} for n in (255, 256, 1023, 1024, 1025, 4000)]})
+        # uncompressed rectangles whose rows carry padding to a multiple of four bytes (bitmapLength = height x padded row):
+        # the data reaches the application as transmitted, padding included
+        padded = []
+        for bpp in (8, 15, 16, 24):
+            for w in (1, 2, 3, 5, 6, 7):
+                for h in (1, 2, 3):
+                    row = w * ((bpp + 7) // 8)
+                    pad = (row + 3) // 4 * 4
+                    if pad != row:
+                        for flags in (0, 0x400):
+                            padded.append({"l": w, "t": h, "r": w + w - 1, "b": h + h - 1, "w": w, "h": h, "bpp": bpp, "flags": flags, "data": [(7 * i + bpp) % 256 for i in range(h * pad)]})
+        for i in range(0, len(padded), 4):
+            plans.append({"id": "padded%d" % i, "steps": activation.happy_prefix() + [
+                {"srv": {"l": "FPBMP", "updates": [{"t": "Bitmap", "rects": padded[i:i + 2]}], "long": False}}, {"srv": {"l": "FPBMP", "updates": [{"t": "Bitmap", "rects": padded[i + 2:i + 4]}], "long": True}}]})
         plans.append({"id": "selftest", "uid": 1004, "steps": activation.happy_prefix() + [
             {"srv": {"kind": "FastPath", "shape": [{"t": "Other", "code": 5}], "long": False}},
             {"srv": {"kind": "FastPath", "shape": [{"t": "Bitmap", "n": 3, "dlen": 5}, {"t": "Other", "code": 9}, {"t": "Bitmap", "n": 1, "dlen": 3}], "long": False}}]})
